@@ -1015,8 +1015,9 @@ class YAMLPath:
 
         Returns:  (str) `section` with all special symbols escaped
         """
-        return YAMLPath.ensure_escaped(
-            section,
+        symbols = (
             '\\', str(pathsep), '(', ')', '[', ']', '^', '$', '%',
-            ' ', "'", '"'
-        )
+            ' ', "'", '"')
+        return "".join(
+            "\\" + char if char in symbols else char
+            for char in str(section))
